@@ -256,6 +256,10 @@ user_exists(const string *localpart, const char *domain, struct userconf *dsp)
 	 * it could be abused to check the existence of files */
 	if (memchr(localpart->s, '/', localpart->len))
 		return 0;
+	/* "." and ".." are no mailboxes either: they name the domain directory
+	 * itself and its parent directory */
+	if ((localpart->len > 0) && (localpart->len <= 2) && (memcmp(localpart->s, "..", localpart->len) == 0))
+		return 0;
 
 /* get the domain directory from "users/cdb" */
 	res = vget_dir(domain, ds);
